@@ -1,11 +1,156 @@
-(* One invariant tower for the generic interpreter: any predicate on contexts that
-   is insensitive to queue / scanner / error list / counters / ghost log and is
-   preserved by every matcher call and every builder call holds after parse,
-   however parse ends. *)
+(* Invariant towers for the generic interpreter.
+
+   Section Inv2 (general): a predicate J for normal returns and a weaker E for
+   exceptional ones; J must be closed under the interpreter's primitive context
+   updates (queue, scanner, call counter, ghost log), under add_error (landing in
+   E when the error cap raises), under every matcher call and every builder call.
+   Then J / E hold however parse ends, and a CompositeParserException carries
+   exactly the context's error list.
+
+   Section Inv (special case): predicates that look at the matcher and builder
+   states only. *)
 From Coq Require Import List Bool Arith Lia.
 Import ListNotations.
 Require Import Kinds Automaton AutoFacts.
 
+Section Inv2.
+  Context {Tok MS BS Err : Type}.
+  Variable P : params Tok MS BS Err.
+  Notation ctx := (ctx Tok MS BS Err).
+  Notation res := (res Tok MS BS Err).
+
+  Variables J E : ctx -> Prop.
+  Hypothesis J_E : forall c, J c -> E c.
+
+  Definition holds2 {A} (r : res A) : Prop :=
+    match r with
+    | Ok _ c => J c
+    | Raise1 _ c | Crash c => E c
+    | RaiseC es c => E c /\ es = errs c /\ es <> []
+    | OutOfFuel => True
+    end.
+
+  Hypothesis J_queue : forall q c, J c -> J (set_queue q c).
+  Hypothesis J_read : forall c, J c -> J (snd (read P c)).
+  Hypothesis J_bump : forall c, J c -> J (bump c).
+  Hypothesis J_emit : forall e c, J c -> J (emit e c).
+  Hypothesis J_adderr : forall e c, J c -> holds2 (add_error P e c).
+  Hypothesis J_ms : forall k t c, J c ->
+    match matchf P k (ms c) t with MR _ _ m' | MRaise _ _ m' => J (set_ms m' c) end.
+  Hypothesis J_start : forall r c, J c ->
+    match b_start P r (bs c) with BOk b' | BRaise _ b' => J (set_bs b' c) | BCrash => True end.
+  Hypothesis J_end : forall r c, J c ->
+    match b_end P r (bs c) with BOk b' | BRaise _ b' => J (set_bs b' c) | BCrash => True end.
+  Hypothesis J_build : forall t c, J c ->
+    match b_build P t (bs c) with BOk b' | BRaise _ b' => J (set_bs b' c) | BCrash => True end.
+
+  Lemma holds2_bind {A B} (r : res A) (f : A -> ctx -> res B) :
+    holds2 r -> (forall a c, J c -> holds2 (f a c)) -> holds2 (bind r f).
+  Proof. intros H F. destruct r; cbn [bind]; [apply F; exact H | exact H ..]. Qed.
+
+  Lemma match_k_J2 stop k t c : J c -> holds2 (match_k P stop k t c).
+  Proof.
+    intros H. unfold match_k. destruct (_ && _); [exact H|].
+    pose proof (J_ms k t (bump c) (J_bump c H)) as M. cbv zeta.
+    destruct (matchf P k (ms (bump c)) t) as [b t' m'|e t' m']; simpl; [exact M|].
+    destruct stop; [apply J_E; exact M|].
+    apply holds2_bind; [apply J_adderr; exact M|]. intros _ c' H'. exact H'.
+  Qed.
+
+  Lemma any_match_J2 stop ks : forall t c, J c -> holds2 (any_match P stop ks t c).
+  Proof.
+    induction ks as [|k ks IH]; intros t c H; simpl; [exact H|].
+    apply holds2_bind; [apply match_k_J2; exact H|]. intros [b t'] c' H'. simpl.
+    destruct b; [exact H' | apply IH; exact H'].
+  Qed.
+
+  Lemma la_loop_J2 stop h : forall fuel c acc, J c -> holds2 (la_loop P fuel stop h c acc).
+  Proof.
+    induction fuel as [|f IH]; intros c acc H; simpl; [exact I|].
+    pose proof (J_read c H) as R. destruct (read P c) as [t c1]. simpl in R.
+    apply holds2_bind; [apply any_match_J2; exact R|]. intros [b t'] c2 H2. simpl.
+    destruct b; [exact H2|].
+    apply holds2_bind; [apply any_match_J2; exact H2|]. intros [b' t''] c3 H3. simpl.
+    destruct b'; [apply IH; exact H3 | exact H3].
+  Qed.
+
+  Lemma lookahead_J2 stop h c : J c -> holds2 (lookahead P stop h c).
+  Proof.
+    intros H. unfold lookahead. destruct (find_la P h); [|apply J_E; exact H].
+    apply holds2_bind; [apply la_loop_J2; exact H|]. intros r c1 H1. simpl. apply J_queue. exact H1.
+  Qed.
+
+  Lemma b_call_J2 stop f c : J c ->
+    match f (bs c) with BOk b' | BRaise _ b' => J (set_bs b' c) | BCrash => True end ->
+    holds2 (b_call P stop f c).
+  Proof.
+    intros H F. unfold b_call. destruct (f (bs c)); simpl; [exact F| |apply J_E; exact H].
+    destruct stop; [apply J_E; exact F|]. apply J_adderr. exact F.
+  Qed.
+
+  Lemma exec_J2 stop t k : forall ps c, J c -> holds2 (exec P stop t k ps c).
+  Proof.
+    induction ps as [|p ps IH]; intros c H; simpl; [exact H|].
+    apply holds2_bind; [|intros _ c' H'; apply IH; exact H'].
+    destruct p; (apply b_call_J2; [apply J_emit; exact H|]).
+    - apply (J_start r). apply J_emit. exact H.
+    - apply (J_end r). apply J_emit. exact H.
+    - apply (J_build t). apply J_emit. exact H.
+  Qed.
+
+  Lemma run_tests_J2 stop : forall tests t c, J c -> holds2 (run_tests P stop tests t c).
+  Proof.
+    induction tests as [|x xs IH]; intros t c H; simpl; [exact H|].
+    apply holds2_bind; [apply match_k_J2; exact H|]. intros [b t1] c1 H1. simpl.
+    destruct b; [|apply IH; exact H1].
+    destruct (t_guard x) as [h|].
+    - apply holds2_bind; [apply lookahead_J2; exact H1|]. intros g c2 H2.
+      destruct g; [|apply IH; exact H2].
+      apply holds2_bind; [apply exec_J2; exact H2|]. intros _ c3 H3. exact H3.
+    - apply holds2_bind; [apply exec_J2; exact H1|]. intros _ c2 H2. exact H2.
+  Qed.
+
+  Lemma match_token_J2 stop s t c : J c -> holds2 (match_token P stop s t c).
+  Proof.
+    intros H. unfold match_token. destruct (find_state P s) as [x|]; [|apply J_E; exact H].
+    apply holds2_bind; [apply run_tests_J2; exact H|]. intros [o t'] c1 H1. simpl.
+    destruct o; [exact H1|].
+    pose proof (J_emit (EvX t' s) c1 H1) as H2.
+    destruct stop; [apply J_E; exact H2|].
+    apply holds2_bind; [apply J_adderr; exact H2|]. intros _ c3 H3. exact H3.
+  Qed.
+
+  Lemma loop_J2 stop : forall fuel s c, J c -> holds2 (loop P fuel stop s c).
+  Proof.
+    induction fuel as [|f IH]; intros s c H; simpl; [exact I|].
+    pose proof (J_read c H) as R. destruct (read P c) as [t c1]. simpl in R.
+    apply holds2_bind; [apply match_token_J2; exact R|]. intros s' c2 H2.
+    destruct (is_eof P t); [exact H2 | apply IH; exact H2].
+  Qed.
+
+  (* the end of parse: Ok only with an empty error list, otherwise the composite of the list *)
+  Theorem parse_J2 stop toks m b : J (init_ctx toks m b) ->
+    match parse P stop toks m b with
+    | Ok _ c => J c /\ errs c = []
+    | Raise1 _ c | Crash c => E c
+    | RaiseC es c => E c /\ es = errs c /\ es <> []
+    | OutOfFuel => True
+    end.
+  Proof.
+    intros H. unfold parse.
+    assert (S1 : holds2 (b_call P stop (b_start P RGherkinDocument) (emit (EvS RGherkinDocument) (init_ctx toks m b)))).
+    { apply b_call_J2; [apply J_emit; exact H|]. apply (J_start RGherkinDocument). apply J_emit. exact H. }
+    destruct (b_call P stop (b_start P RGherkinDocument) _) as [[] c1|e c1|es c1|c1|]; cbn [bind]; simpl in S1; auto.
+    pose proof (loop_J2 stop (S (S (length toks))) (start_state P) c1 S1) as L.
+    destruct (loop P (S (S (length toks))) stop (start_state P) c1) as [s' c2|e c2|es c2|c2|]; cbn [bind]; simpl in L; auto.
+    assert (S3 : holds2 (b_call P stop (b_end P RGherkinDocument) (emit (EvE RGherkinDocument) c2))).
+    { apply b_call_J2; [apply J_emit; exact L|]. apply (J_end RGherkinDocument). apply J_emit. exact L. }
+    destruct (b_call P stop (b_end P RGherkinDocument) _) as [[] c3|e c3|es c3|c3|]; cbn [bind]; simpl in S3; auto.
+    destruct (errs c3) eqn:Ee; [auto|]. split; [apply J_E; exact S3|]. split; [auto | discriminate].
+  Qed.
+End Inv2.
+
+(* ---- predicates on matcher / builder state only ---- *)
 Section Inv.
   Context {Tok MS BS Err : Type}.
   Variable P : params Tok MS BS Err.
@@ -13,7 +158,6 @@ Section Inv.
   Notation res := (res Tok MS BS Err).
 
   Variable J : ctx -> Prop.
-  (* J looks at the matcher and builder states only *)
   Hypothesis J_ext : forall c c', ms c' = ms c -> bs c' = bs c -> J c -> J c'.
   Hypothesis J_ms : forall k t c, J c ->
     match matchf P k (ms c) t with MR _ _ m' | MRaise _ _ m' => J (set_ms m' c) end.
@@ -26,110 +170,30 @@ Section Inv.
 
   Definition holds {A} (r : res A) : Prop := sat r (fun _ c => J c) J True.
 
-  Lemma holds_bind {A B} (r : res A) (f : A -> ctx -> res B) :
-    holds r -> (forall a c, J c -> holds (f a c)) -> holds (bind r f).
-  Proof. unfold holds. destruct r; simpl; auto. Qed.
-
-  Ltac ext := match goal with H : J ?c |- J ?c' => apply (J_ext c c'); [reflexivity | reflexivity | exact H] end.
-
-  Lemma add_error_J e c : J c -> holds (add_error P e c).
+  Lemma add_error_ext e c : J c -> holds2 J J (add_error P e c).
   Proof.
-    intros H. unfold holds, add_error. destruct (existsb _ _); simpl; [exact H|].
-    destruct (_ <? _); simpl; ext.
-  Qed.
-
-  Lemma read_J c : J c -> J (snd (read P c)).
-  Proof. intros H. unfold read. destruct (queue c); [destruct (rest c)|]; simpl; ext. Qed.
-
-  Lemma match_k_J stop k t c : J c -> holds (match_k P stop k t c).
-  Proof.
-    intros H. unfold match_k. destruct (_ && _); [exact H|].
-    assert (Hb : J (bump c)) by ext.
-    pose proof (J_ms k t (bump c) Hb) as M. cbv zeta.
-    destruct (matchf P k (ms (bump c)) t) as [b t' m'|e t' m']; simpl; [exact M|].
-    destruct stop; [exact M|].
-    apply holds_bind; [apply add_error_J; exact M|]. intros _ c' H'. exact H'.
-  Qed.
-
-  Lemma any_match_J stop ks : forall t c, J c -> holds (any_match P stop ks t c).
-  Proof.
-    induction ks as [|k ks IH]; intros t c H; simpl; [exact H|].
-    apply holds_bind; [apply match_k_J; exact H|]. intros [b t'] c' H'. simpl.
-    destruct b; [exact H' | apply IH; exact H'].
-  Qed.
-
-  Lemma la_loop_J stop h : forall fuel c acc, J c -> holds (la_loop P fuel stop h c acc).
-  Proof.
-    induction fuel as [|f IH]; intros c acc H; simpl; [exact I|].
-    pose proof (read_J c H) as R. destruct (read P c) as [t c1]. simpl in R.
-    apply holds_bind; [apply any_match_J; exact R|]. intros [b t'] c2 H2. simpl.
-    destruct b; [exact H2|].
-    apply holds_bind; [apply any_match_J; exact H2|]. intros [b' t''] c3 H3. simpl.
-    destruct b'; [apply IH; exact H3 | exact H3].
-  Qed.
-
-  Lemma lookahead_J stop h c : J c -> holds (lookahead P stop h c).
-  Proof.
-    intros H. unfold lookahead. destruct (find_la P h); [|exact H].
-    apply holds_bind; [apply la_loop_J; exact H|]. intros r c1 H1. simpl. ext.
-  Qed.
-
-  Lemma b_call_J stop f c : J c ->
-    match f (bs c) with BOk b' | BRaise _ b' => J (set_bs b' c) | BCrash => True end ->
-    holds (b_call P stop f c).
-  Proof.
-    intros H F. unfold b_call. destruct (f (bs c)); simpl; [exact F| |exact H].
-    destruct stop; [exact F|]. apply add_error_J. exact F.
-  Qed.
-
-  Lemma exec_J stop t k : forall ps c, J c -> holds (exec P stop t k ps c).
-  Proof.
-    induction ps as [|p ps IH]; intros c H; simpl; [exact H|].
-    apply holds_bind; [|intros _ c' H'; apply IH; exact H'].
-    destruct p; (apply b_call_J; [ext|]).
-    - apply (J_start r). ext.
-    - apply (J_end r). ext.
-    - apply (J_build t). ext.
-  Qed.
-
-  Lemma run_tests_J stop : forall tests t c, J c -> holds (run_tests P stop tests t c).
-  Proof.
-    induction tests as [|x xs IH]; intros t c H; simpl; [exact H|].
-    apply holds_bind; [apply match_k_J; exact H|]. intros [b t1] c1 H1. simpl.
-    destruct b; [|apply IH; exact H1].
-    destruct (t_guard x) as [h|].
-    - apply holds_bind; [apply lookahead_J; exact H1|]. intros g c2 H2.
-      destruct g; [|apply IH; exact H2].
-      apply holds_bind; [apply exec_J; exact H2|]. intros _ c3 H3. exact H3.
-    - apply holds_bind; [apply exec_J; exact H1|]. intros _ c2 H2. exact H2.
-  Qed.
-
-  Lemma match_token_J stop s t c : J c -> holds (match_token P stop s t c).
-  Proof.
-    intros H. unfold match_token. destruct (find_state P s) as [x|]; [|exact H].
-    apply holds_bind; [apply run_tests_J; exact H|]. intros [o t'] c1 H1. simpl.
-    destruct o; [exact H1|].
-    assert (H2 : J (emit (EvX t' s) c1)) by ext.
-    destruct stop; [exact H2|].
-    apply holds_bind; [apply add_error_J; exact H2|]. intros _ c3 H3. exact H3.
-  Qed.
-
-  Lemma loop_J stop : forall fuel s c, J c -> holds (loop P fuel stop s c).
-  Proof.
-    induction fuel as [|f IH]; intros s c H; simpl; [exact I|].
-    pose proof (read_J c H) as R. destruct (read P c) as [t c1]. simpl in R.
-    apply holds_bind; [apply match_token_J; exact R|]. intros s' c2 H2.
-    destruct (is_eof P t); [exact H2 | apply IH; exact H2].
+    intros H. unfold holds2, add_error. destruct (existsb _ _); [exact H|].
+    destruct (_ <? _); simpl.
+    - split; [|split; [reflexivity | destruct (errs c); discriminate]].
+      apply (J_ext c); auto.
+    - apply (J_ext c); auto.
   Qed.
 
   Theorem parse_J stop toks m b : J (init_ctx toks m b) -> holds (parse P stop toks m b).
   Proof.
-    intros H. unfold parse.
-    apply holds_bind.
-    { apply b_call_J; [ext|]. apply (J_start RGherkinDocument). ext. }
-    intros _ c1 H1. apply holds_bind; [apply loop_J; exact H1|].
-    intros _ c2 H2. apply holds_bind.
-    { apply b_call_J; [ext|]. apply (J_end RGherkinDocument). ext. }
-    intros _ c3 H3. destruct (errs c3); exact H3.
+    intros H.
+    assert (T : match parse P stop toks m b with
+                | Ok _ c => J c /\ errs c = []
+                | Raise1 _ c | Crash c => J c
+                | RaiseC es c => J c /\ es = errs c /\ es <> []
+                | OutOfFuel => True
+                end).
+    { apply (parse_J2 P J J); auto.
+      - intros q c h. apply (J_ext c); auto.
+      - intros c h. unfold read. destruct (queue c); [destruct (rest c)|]; simpl; apply (J_ext c); auto.
+      - intros c h. apply (J_ext c); auto.
+      - intros e c h. apply (J_ext c); auto.
+      - exact add_error_ext. }
+    unfold holds, sat. destruct (parse P stop toks m b); tauto.
   Qed.
 End Inv.
